@@ -40,7 +40,7 @@ def prim_cases(draw):
     v_free = draw(pos(30, 160))
     A = dict(kind=draw(st.sampled_from(KINDS)), engine=draw(st.sampled_from(["numpy", "DM", "SX", "MX"])), rho_max=rho_max, rho_crit=rho_crit,
              v_free=v_free, a=draw(st.one_of(pos(0.8, 4), st.sampled_from([1.0, 2.0]))), lanes=draw(st.integers(1, 5)),
-             T=draw(pos(1, 60)) / 3600, C=draw(pos(200, 5000)), w=draw(fl(0, 500)), d=draw(fl(0, 8000)),
+             T=draw(pos(1, 60)) / 3600, C=draw(st.one_of(pos(200, 5000), pos(200, 5000), pos(200, 5000), st.just(0.0))), w=draw(fl(0, 500)), d=draw(fl(0, 8000)),
              rho_first=draw(fl(0, rho_max, (rho_crit, rho_max))), v_first=draw(fl(0, 1.5 * v_free, (v_free,))))
     k = A["kind"]
     if k == "main" and draw(st.integers(0, 4)) == 0:
@@ -135,6 +135,8 @@ def check_prim(ctx, A):
     cap = capacity(k, A["lanes"], A["v_free"], A["a"], A["rho_crit"], A["C"])
     corner = (A["w"] == 0 or A["d"] == 0 or A["ctrl"] in (0.0, 1.0, math.inf) or A["rho_first"] in (A["rho_crit"], A["rho_max"]) or A["v_first"] == 0)
     at_max = A["rho_first"] == A["rho_max"]
+    if A["C"] == 0:
+        ctx.label("closed-origin:C=0")
     if at_max:
         ctx.label("rho_first=rho_max")
     if corner:
